@@ -17,8 +17,12 @@ class ToGFA1:
     a.append(",".join(segment_names))
     overlaps = []
     for oline in self.captured_edges:
-      gfapy.Field._validate_gfa_field(oline.line.overlap, "alignment_gfa1")
-      overlaps.append(str(oline.line.overlap))
+      overlap = oline.line.overlap
+      gfapy.Field._validate_gfa_field(overlap, "alignment_gfa1")
+      if oline.orient == "-":
+        # the edge is traversed against its direction
+        overlap = overlap.complement()
+      overlaps.append(str(overlap))
     # a path of a single segment has no overlaps: the field cannot be empty
     a.append(",".join(overlaps) if overlaps else "*")
     for tn in self.tagnames:
